@@ -6,7 +6,7 @@
                      (OK or ER): allocation bound, child-to-parent agreement, no id twice in one content list,
                      roots, well-founded parent chains.  Everything navigation needs follows from Core.
    * [NoOrphan w]  : parent-to-child agreement for ALL allocated nodes: a node whose parent link is `PElem p` is
-                     listed by p.  With Core it says: every allocated node is either reachable from a model root
+                     listed by p, and a node whose parent link is `PModel m` is the root of model m.  With Core it says: every allocated node is either reachable from a model root
                      or Detached (its ancestor chain ends in PNone).  This tier is what the code violates on the
                      classes [Known_*] below (findings).
    [TreeInv w] := Core w /\ NoOrphan w. *)
@@ -56,12 +56,15 @@ Record Core (w : world) : Prop := mkCore {
   c_nodup : forall p n, w_nodes w p = Some n -> NoDup (kids n);                          (* (c) *)
   c_roots : forall k r, nth_error (roots w) k = Some r ->                                (* (d) *)
             exists n, w_nodes w r = Some n /\ n_parent n = PModel (N.of_nat k);
-  c_pmodel : forall i n m, w_nodes w i = Some n -> n_parent n = PModel m ->
-             nth_error (roots w) (N.to_nat m) = Some i;
   c_depth : forall i, allocated w i -> exists h, Depth w i h                             (* (e) *)
 }.
 
-Definition NoOrphan (w : world) : Prop := forall c p, par w c p -> lists w p c.         (* (f), all nodes *)
+(* only the root of model m carries the parent link PModel m *)
+Definition RootsOnly (w : world) : Prop :=
+  forall i n m, w_nodes w i = Some n -> n_parent n = PModel m -> nth_error (roots w) (N.to_nat m) = Some i.
+
+Definition NoOrphan (w : world) : Prop :=
+  (forall c p, par w c p -> lists w p c) /\ RootsOnly w.                                (* (f), all nodes *)
 
 Definition TreeInv (w : world) : Prop := Core w /\ NoOrphan w.
 
